@@ -92,6 +92,9 @@ class WbMemHarness(Harness):
                 ops.append(("r", a, s, 0))
                 for mk in self.marks:
                     ops.append(("w", a, s, mk))
+        for (we, a, kind, n) in self.p.get("bursts", ()):
+            for mk in (self.marks if we else (0,)):
+                ops.append(("bw" if we else "br", a, (1 << self.nl) - 1, mk, kind, n))
         self.ops = ops
 
     def init_byte(self, a):
@@ -121,14 +124,43 @@ class WbMemHarness(Harness):
         return [(m, s) for m in mch for s in sch]
 
     def cur_op(self, env, ch):
+        """the beat presented in this cycle (6-tuple) or None"""
+        if ch[0][0] == "hold":
+            op, i = env[1]
+            return self.beat(op, i)
+        if ch[0][0] == "idle":
+            return None
+        return self.beat(ch[0], 0)
+
+    def cur_burst(self, env, ch):
         if ch[0][0] == "hold":
             return env[1]
         if ch[0][0] == "idle":
             return None
-        return ch[0]
+        return (ch[0], 0)
 
     def data_of(self, op):
         return sum(lane_byte(op[3], op[1], l) << (8*l) for l in range(self.nl))
+
+    @staticmethod
+    def beat_adr(op, i):
+        a, kind = op[1], op[4]
+        if kind == "const":
+            return a
+        if kind == "lin":
+            return a + i
+        n = {"wrap4": 4, "wrap8": 8}[kind]
+        return (a & ~(n - 1)) | ((a + i) & (n - 1))
+
+    def beat(self, op, i):
+        """classic operation = one beat; burst beat i -> (type, adr, sel, mark, cti, bte)"""
+        if len(op) == 4:
+            return (op[0], op[1], op[2], op[3], 0, 0)
+        last = i == op[5] - 1
+        cti = 0b111 if last else (0b001 if op[4] == "const" else 0b010)
+        bte = {"const": 0, "lin": 0, "wrap4": 1, "wrap8": 2}[op[4]]
+        # every beat carries its own data mark so that beats are distinguishable: mark alternates with the beat index
+        return ("w" if op[0] == "bw" else "r", self.beat_adr(op, i), op[2], (op[3] + i - 1) % 2 + 1 if op[3] else 0, cti, bte)
 
     def drive(self, v, env, ch):
         M = self.Mi
@@ -140,7 +172,7 @@ class WbMemHarness(Harness):
             v[M["cyc"]] = v[M["stb"]] = 1
             v[M["adr"]], v[M["we"]], v[M["sel"]] = op[1], int(op[0] == "w"), op[2]
             v[M["dat_w"]] = self.data_of(op) if op[0] == "w" else 0
-        v[M["cti"]] = v[M["bte"]] = 0
+        v[M["cti"]], v[M["bte"]] = (op[4], op[5]) if op is not None else (0, 0)
         if self.Si is not None:
             S = self.Si
             v[S["ack"]] = v[S["err"]] = 0
@@ -228,13 +260,19 @@ class WbMemHarness(Harness):
                         if (op[2] >> l) & 1:
                             rl[(base + l) % self.nbytes] = lane_byte(op[3], op[1], l)
                     ref2 = tuple(rl)
+                    if base >= self.nbytes:
+                        raise MachineryError("burst leaves the memory: fix the configuration")
             flags |= PROGRESS
             # converters do not cache: once the master cycle is acknowledged the backing store equals the flat memory
             if self.kind in ("down", "up", "conv") and self.Si is not None and back2 != ref2:
                 return env, ("write.collateral", f"after the acknowledged cycle the backing store {back2} differs from the flat memory {ref2}"), 0
-            nxt = ("T", None)
+            bop, bi = self.cur_burst(env, ch)
+            if len(bop) == 6 and bi + 1 < bop[5]:
+                nxt = ("R", (bop, bi + 1))          # next beat of the burst, no wait state
+            else:
+                nxt = ("T", None)
         elif op is not None:
-            nxt = ("R", op)
+            nxt = ("R", self.cur_burst(env, ch))
         else:
             nxt = ("I", None)
         if coop:
@@ -272,6 +310,10 @@ reg("Converter(8->8)", "quick", kind="conv", mw=8, sw=8, adrs=(0, 1), nbytes=2)
 reg("SRAM(16bit,rw)", "quick", kind="sram", mw=16, adrs=(0, 1), nbytes=4)
 reg("SRAM(32bit,rw)", "quick", kind="sram", mw=32, adrs=(0, 1), sels=SEL32, nbytes=8, marks=(1,))
 reg("SRAM(16bit,read_only)", "quick", kind="sram", mw=16, adrs=(0, 1), nbytes=4, read_only=True)
+BURSTS = tuple((we, a, kind, n) for we in (0, 1) for (a, kind, n) in ((0, "lin", 2), (1, "lin", 3), (0, "const", 2), (1, "wrap4", 3), (3, "wrap4", 2), (2, "wrap4", 4)))
+reg("SRAM(8bit,bursting)", "quick", kind="sram", mw=8, adrs=(0, 1), nbytes=8, bursting=True, bursts=BURSTS)
+reg("SRAM(16bit,bursting)", "quick", kind="sram", mw=16, adrs=(0, 1), sels=(0b01, 0b11), nbytes=16, bursting=True, marks=(1,),
+    bursts=tuple((we, a, kind, n) for we in (0, 1) for (a, kind, n) in ((0, "lin", 3), (5, "wrap4", 4), (6, "wrap8", 3), (2, "const", 2))))
 # cache: addresses 0, 2, 4 collide in a 2-line cache (16/16: line = 1 word), 1 is the other line
 reg("Cache(size=2,16/16)+SRAM", "quick", kind="cache", mw=16, sw=16, adrs=(0, 2, 4), sels=(0b01, 0b11), cachesize=2, backing="sram", nbytes=16, depth=4, marks=(1,))
 reg("Cache(size=2,16/16)+SRAM,depth5", "thorough", kind="cache", mw=16, sw=16, adrs=(0, 2, 4, 1), sels=(0b01, 0b11, 0b10), cachesize=2, backing="sram", nbytes=16, depth=5, cap=3_000_000)
